@@ -36,7 +36,9 @@ func c02(p *core.Program, r *core.Report) {
 	r.Rule("R1", "lookaside coherence: for every Containers implementation that caches its most recently used container (a *Container field paired with a uint64 key field), every method path that writes the underlying collection (tree Set/Put/Delete/Every, slice/tree reassignment, element stores) also (re)assigns the lookaside key or runs under `key != lastKey`; a collection write into another, freshly constructed object requires that a fresh object's lookaside is invalid (constructor sentinel, or every hit test also requires a non-nil cached container)")
 	r.Rule("R3", "no removal during enumeration: Containers.Remove is not called inside a loop over an iterator of the same collection (the B-tree enumerator is invalidated by Delete); UpdateEvery is the supported way")
 	r.Rule("R4", "found is not position: a container iterator skips keys whose container is nil, so wherever package roaring uses the `found` result of Containers.Iterator(key) to take the first container the iterator yields as the container of that key, it compares the yielded key with the key it asked for")
+	r.Rule("R5", "count repaired after an in-place union: (*Container).unionInPlace leaves a bitmap container's cardinality stale by design, so in every function or function literal of package roaring that calls it, every path from the call recounts (Container.Repair / Containers.Repair) before the result's N() is read and before the function returns; the only accepted shortcut is a test of the result's own type after the call (not a bitmap: count was maintained)")
 	c02FoundIsNotPosition(p, r)
+	c02CountRepaired(p, r)
 	r.NotDecided = "agreement of all read paths with the sequential model for all histories; exact changed-bit counts (value reasoning)"
 	rp := p.Pkg("roaring")
 	if rp == nil {
